@@ -35,9 +35,24 @@ def names_in(e):
     return [n.id for n in ast.walk(e) if isinstance(n, ast.Name)]
 
 
-def analyse(fn):
+def derive_sources(fn, seeds=None):
+    """names of `fn` that denote a source table or a lazy iterator derived from one (shared with translators/pullshape.py);
+    `seeds`: start from these parameters only (the projection on one operand of a binary operator)"""
+    return _analyse(fn, want='S', seeds=seeds)
+
+
+def table_params(fn):
     params = [a.arg for a in fn.args.args] + ([fn.args.vararg.arg] if fn.args.vararg else [])
-    S = {p for p in params if p in TABLE_PARAMS}
+    return [p for p in params if p in TABLE_PARAMS]
+
+
+def analyse(fn):
+    return _analyse(fn, want='sites')
+
+
+def _analyse(fn, want, seeds=None):
+    params = [a.arg for a in fn.args.args] + ([fn.args.vararg.arg] if fn.args.vararg else [])
+    S = {p for p in params if p in TABLE_PARAMS} if seeds is None else set(seeds)
     # self.<attr> of view methods: the wrapped table lives in attributes
     changed = True
     assigns = [n for n in ast.walk(fn) if isinstance(n, ast.Assign)]
@@ -86,6 +101,8 @@ def analyse(fn):
                     if isinstance(n, ast.Name) and n.id not in S:
                         S.add(n.id)
                         changed = True
+    if want == 'S':
+        return S
     sites = []
     for n in ast.walk(fn):
         if isinstance(n, (ast.FunctionDef, ast.Lambda)) and n is not fn:
